@@ -219,7 +219,9 @@ def chunks : Nat → Bytes → List Bytes
 
 def parseValidators (extra : Bytes) : Option (List Bytes) :=
   let vb := (extra.drop extraVanity).take (extra.length - extraVanity - extraSeal)
-  if vb.length % addressLength ≠ 0 then none else some (chunks (vb.length / addressLength) vb)
+  if vb.length % addressLength ≠ 0 then none
+  else if vb.length / addressLength = 0 then none   -- "epoch header carries no validators"
+  else some (chunks (vb.length / addressLength) vb)
 
 /-! ### update.go -/
 
@@ -295,15 +297,18 @@ def updateClient (fx : Fix) (env : Env) (cs : ClientState) (st : Store) (bt : Na
       | .panic p => .panic p
       | .ok (cs', st') => .ok (cs', { st' with cons := setCons st'.cons ⟨h.rev, h.number, h.time, h.root⟩ })
 
-/-- `ClientState.Validate` + keeper `CreateClient` (`Initialize`) on an empty client store; the initial
-consensus state is `⟨head.time, head.root⟩`. -/
+/-- `ClientState.Validate` (epoch ≠ 0, chain id fits int64, height ≠ 0-0, `Header.ValidateBasic`) + keeper
+`CreateClient` (`Initialize`) on an empty client store; the initial consensus state is `⟨head.time, head.root⟩`. -/
 def createClient (env : Env) (cs : ClientState) : Outcome (ClientState × Store) :=
+  if cs.epoch = 0 then .err "epoch-zero"
+  else if cs.chainId > gasCap then .err "chain-id"          -- math.MaxInt64 = 2^63 - 1
+  else if cs.head.rev = 0 ∧ cs.head.number = 0 then .err "height-zero"
+  else
   match validateBasic cs.head with
   | .err e => .err e
   | .panic p => .panic p
   | .ok _ =>
-    if cs.epoch = 0 then .panic "divide-by-zero"
-    else if cs.head.number % cs.epoch ≠ 0 then .err "genesis-block"
+    if cs.head.number % cs.epoch ≠ 0 then .err "genesis-block"
     else
       match env.recover cs.chainId cs.head with
       | none => .err "ecrecover"
